@@ -2764,3 +2764,111 @@ _run_before_filter_fraction = run
 def run(chk):       # noqa: F811
     _run_before_filter_fraction(chk)
     rule_filter_and_fraction(chk)
+
+
+# ---------------------------------------------------------------------------------------------------------------
+# C03.percent-text (round 6): the text the percentage parser hands to the digit parser.  BasePercentageParser.parse is read
+# symbolically: is `<src>.text` replaced by the number's own text (`<src>.data[0]`) before super().parse(<src>)?  If not, the
+# digit parser sees the literal WITH its percent suffix; _get_digital_value is then interpreted per culture configuration on
+# `<literal>%` / `<literal> %` and must give the value of the bare literal.
+
+def percent_handover(idx, pcls):
+    """-> ('number' | 'original', class, line): which text reaches super().parse() in the percentage parser"""
+    k, fn = idx.find_method(pcls, 'parse')
+    if fn is None:
+        raise AnalysisError('%s has no parse' % pcls.name)
+    params = method_params(fn)
+    if len(params) != 1:
+        raise AnalysisError('%s.parse: expected one parameter' % k.name)
+    src = params[0]
+    sup = [n for n in ast.walk(fn) if isinstance(n, ast.Call) and isinstance(n.func, ast.Attribute) and n.func.attr == 'parse'
+           and isinstance(n.func.value, ast.Call) and isinstance(n.func.value.func, ast.Name) and n.func.value.func.id == 'super']
+    if len(sup) != 1 or len(sup[0].args) != 1 or not (isinstance(sup[0].args[0], ast.Name) and sup[0].args[0].id == src):
+        raise AnalysisError('%s.parse: the delegation super().parse(%s) was not recognised' % (k.name, src))
+    how = 'original'
+    for n in ast.walk(fn):
+        if isinstance(n, ast.Assign) and len(n.targets) == 1 and n.lineno < sup[0].lineno:
+            t = n.targets[0]
+            if isinstance(t, ast.Attribute) and isinstance(t.value, ast.Name) and t.value.id == src and t.attr == 'text':
+                v = n.value
+                def is_number_text(x):
+                    return isinstance(x, ast.Subscript) and dotted(x.value) == '%s.data' % src and isinstance(x.slice, ast.Constant) \
+                        and x.slice.value == 0
+                if is_number_text(v):
+                    how = 'number'
+                elif isinstance(v, ast.Name) and any(isinstance(m, ast.Assign) and len(m.targets) == 1 and isinstance(m.targets[0], ast.Name)
+                                                     and m.targets[0].id == v.id and is_number_text(m.value) for m in ast.walk(fn)):
+                    how = 'number'      # a local that holds the number's own text
+                else:
+                    raise AnalysisError('%s.parse:%d %s.text is replaced by %s; not understood' % (k.name, n.lineno, src, ast.unparse(v)))
+    return how, k, sup[0].lineno
+
+
+def rule_percent_text(chk):
+    import sys as _sys
+    from decimal import Decimal
+    ev = Ev()
+    idx = ev.idx
+    chk.rule('C03.percent-text', 'the digit parser values the text the percentage parser hands over like the bare literal', floor=6,
+             control=True)
+    regs = number_registrations(ev)
+    bnp = idx.cls('recognizers_number.number.parsers.BaseNumberParser')
+    gdv = bnp.methods['_get_digital_value']
+    table, variant_attr = separator_selection(gdv)
+    seen = set()
+    for nr in regs:
+        r = nr.reg
+        if r.model_cls.name != 'PercentModel':
+            continue
+        pcls, _s = factory_decide(ev, nr.factory_call[0], nr.factory_call[1], nr.ptype, nr.config_cls)
+        if not any(k.name == 'BasePercentageParser' for k in idx.mro(pcls)):
+            continue
+        if (nr.config_cls.qual, r.culture) in seen:
+            continue
+        seen.add((nr.config_cls.qual, r.culture))
+        how, hk, hline = percent_handover(idx, pcls)
+        chk.consulted(hk.mod.path)
+        cfg = nr.config_cls
+        vals = {s: slot(ev, cfg, s).value for s in SEP_SLOTS + ('is_multi_decimal_separator_culture', 'non_standard_separator_variants')}
+        ccode = culture_info_code(ev, cfg, nr.config_call, r.mod)[0]
+        multi = bool(vals['is_multi_decimal_separator_culture'])
+        variant = ccode in (vals['non_standard_separator_variants'] or [])
+        attrs = {'self.config.decimal_separator_char': vals['decimal_separator_char'],
+                 'self.config.non_decimal_separator_char': vals['non_decimal_separator_char'],
+                 'self.config.is_multi_decimal_separator_culture': multi, 'self.' + variant_attr: variant, 'sys.maxsize': _sys.maxsize}
+        dslot, nslot = table[(multi, variant)]
+        d, g = vals[dslot], vals[nslot]
+        where = 'BaseNumberParser._get_digital_value[%s %%]' % r.culture
+
+        def value(text):
+            return DigitInterp(idx, bnp, where, attrs, ev).call(gdv, [text, 1])
+        lits = [t.replace('G', g).replace('D', d) for t in ('1234', '12', '1G234', '45G000', '123G456', '12G345G678', '1G234D5', '12D5', '0D5')
+                if g.strip() or 'G' not in t]
+        bad = []
+        for x in lits:
+            base = value(x)
+            for suffix in (('%', ' %') if how == 'original' else ('',)):
+                got = value(x + suffix)
+                if got != base:
+                    bad.append('%r -> %s but %r -> %s' % (x + suffix, got, x, base))
+        chk.judge(not bad, 'C03.percent-text', hk.mod.path, '%s.parse -> _get_digital_value under %s[%s]' % (hk.name, cfg.name, r.culture),
+                  'hands over the %s text; %d literals, %d differ%s' % ('number\'s own' if how == 'number' else 'whole percentage', len(lits),
+                                                                        len(bad), (': ' + '; '.join(bad[:6])) if bad else ''),
+                  'culture %s: %s.parse passes the percentage text (with its percent suffix) on to the digit parser, which then mis-values '
+                  'it: %s - the grouping heuristic measures the distance to the END of the text' % (r.culture, hk.name, '; '.join(bad[:5])),
+                  hline)
+    if not seen:
+        raise AnalysisError('no percentage registration served by BasePercentageParser found')
+    ctl = ast.parse("class P(BaseNumberParser):\n    def parse(self, source):\n        number_text = source.text\n"
+                    "        if isinstance(source.data, list):\n            number_text = source.data[0]\n"
+                    "        result = super().parse(source)\n        return result\n").body[0]
+    from ..index import Cls
+    chk.control('C03.percent-text', percent_handover(idx, Cls(bnp.mod, ctl))[0] == 'original')
+
+
+_run_before_percent_text = run
+
+
+def run(chk):       # noqa: F811
+    _run_before_percent_text(chk)
+    rule_percent_text(chk)
